@@ -386,6 +386,8 @@ class TokenAwarePolicy(LoadBalancingPolicy):
             else:
                 replicas = self._cluster_metadata.get_replicas(keyspace, routing_key)
                 if self.shuffle_replicas:
+                    # the token map hands out its cached list: shuffle a copy, not the map's own replica order
+                    replicas = list(replicas)
                     shuffle(replicas)
                 yielded = []
                 for replica in replicas:
